@@ -17,7 +17,7 @@ var (
 // ---- expressions: evaluation order, short circuit, conditional, folding ----
 var zzC01Expr = []zzC01Skel{
 	{"e_order", zzNeedNone, `
-x = emit(v0) - emit(v1) * emit(v2)
+x = emit(v0) - emit(v1) * emit(3)
 y = (emit(1), [emit(2), emit(3)], {emit(4): emit(5)})
 `},
 	{"e_andor", zzNeedNone, `
@@ -438,7 +438,7 @@ r = a(v2)
 `},
 	{"f_defaults", zzNeedNone, `
 def mk(y):
-    z = v2
+    z = v1
     def f(a=emit(v0), b=emit(v1)):
         return a - b + z + y
     return f
